@@ -22,6 +22,7 @@ def generate(seed, scratch):
         world["cbi_config"] = '[compiler.gcc]\noptions = ["-DFROM_CONFIG", "-mfancy-extension"]\n'
     fault_free = rs.random() < 0.25
     repairs = 0
+    user_cc = rs.random() < 0.15
     if fault_free:
         # a fault-free world: no injected fault kinds and every include resolvable
         cfg2 = dict(cfg)
@@ -36,6 +37,16 @@ def generate(seed, scratch):
             repairs, _ = core.repair_missing(world, top)
         finally:
             W.cleanup(top)
+    if user_cc:
+        # a compiler the user defined in .cbi/config under a dotted name (vendor wrappers: "vcc.v2"); commands
+        # that use it are fully honoured
+        world["cbi_config"] = (world.get("cbi_config") or "") + '\n[compiler."vcc.v2"]\noptions = ["-DFROM_VCC"]\n'
+        for p in world["platforms"]:
+            for e in p["entries"]:
+                argv = W.entry_argv(e)
+                if argv and argv[0] in ("gcc", "clang") and rs.random() < 0.5:
+                    e.pop("command", None)
+                    e["arguments"] = [rs.choice(["vcc.v2", "/opt/vendor-1.2/bin/vcc.v2"])] + argv[1:]
     return {"property": PID, "seed": seed, "world": world, "cfg": cfg,
             "schedule": {"fault_free": fault_free, "cli": True, "evict": "all" if rs.random() < 0.2 else None,
                          # terminal verbosity must not change what is counted or logged
@@ -130,7 +141,8 @@ def expected_events(world, top, model, ev):
                 continue
             healthy += 1
             a = refmodel.parse_argv(W.entry_argv(e))
-            if a["compiler"] not in refmodel.BUILTIN_COMPILERS:
+            user_defined = a["compiler"] == "vcc.v2" and "vcc.v2" in (world.get("cbi_config") or "")
+            if a["compiler"] not in refmodel.BUILTIN_COMPILERS and not user_defined:
                 exp["compilers"].append(a["compiler"])
             unknown = [f for f in a["other"]
                        if not (f == "-fopenmp" and a["compiler"] in refmodel.BUILTIN_COMPILERS)]
